@@ -22,7 +22,7 @@ def build_tests():
     core = sorted(glob.glob(os.path.join(B, "repo", "*", "*.o")) + glob.glob(os.path.join(B, "repo", "*.o")))
     core = [o for o in core if "/relay/" not in o and "/daemon/" not in o]
     tracer = os.path.join(out, "livetrace.o")
-    vlib.sh("g++ %s -c %s/harness/livetrace.cpp -o %s" % (flags, vlib.VERIF, tracer), timeout=900)
+    vlib.sh("g++ %s -c %s/harness/common/livetrace_tracer.cpp -o %s" % (flags, vlib.VERIF, tracer), timeout=900)
     built = []
     procs = []
     for t in TESTS:
